@@ -22,6 +22,7 @@ CASE_TYPE = 'tseytin_case'
 TEMPLATE_CASE_TYPE = 'template_case'
 MAX_ENUM_AUX = 14
 MAX_INPUTS = 8
+SEMANTIC_KEYS = ('satisfiability', 'gate value')
 
 
 # ------------------------------------------------------------------ running the implementation
@@ -517,7 +518,12 @@ def shrink(case, msg):
             m = oracle(c)
         except Exception:  # noqa: BLE001
             return None
-        return m if (m and m.split(':')[0] == key) else None
+        # any semantic failure of the property is accepted while shrinking (a wrong gate value inside the cone
+        # is the same defect seen earlier); exceptions / observation problems only if that was the failure
+        if not m:
+            return None
+        k = m.split(':')[0]
+        return m if (k == key or (k in SEMANTIC_KEYS and key in SEMANTIC_KEYS)) else None
     dump, outs = case['circuit'], case.get('outs')
     sel = selected_labels(dump, outs) or []
     best, best_msg = case, msg
